@@ -1,0 +1,45 @@
+// SPDX-FileCopyrightText: 2020 - 2025 SAP SE
+//
+// SPDX-License-Identifier: Apache-2.0
+
+//go:build verif
+
+package tds
+
+import (
+	"context"
+	"fmt"
+	"io"
+	"sync"
+)
+
+// NewConnTransport returns a Conn exactly as NewConn prepares it after
+// dialing, but on top of the passed transport instead of a dialed
+// net.Conn.
+//
+// It only exists in builds with the 'verif' tag and is used by
+// verification harnesses that need full control over the bytes, read
+// partitions and failures of the transport.
+func NewConnTransport(ctx context.Context, info *Info, rwc io.ReadWriteCloser) (*Conn, error) {
+	tds := &Conn{
+		info:       info,
+		conn:       rwc,
+		packetSize: 512,
+	}
+
+	if err := tds.setCapabilities(); err != nil {
+		return nil, fmt.Errorf("error setting capabilities on connection: %w", err)
+	}
+
+	tds.odce = aes_256_cbc
+
+	tds.ctx, tds.ctxCancel = context.WithCancel(ctx)
+	tds.tdsChannelCurFreeId = uint32(0)
+	tds.tdsChannels = make(map[int]*Channel)
+	tds.tdsChannelsLock = &sync.RWMutex{}
+	tds.errCh = make(chan error, 10)
+
+	go tds.ReadFrom()
+
+	return tds, nil
+}
